@@ -13,7 +13,7 @@ RULE = ('C05 scenarios (1-4 posters x 1-6 unique-id events, fifo/lifo mixed, han
         'unposted; per-poster fifo order; dispatch intervals disjoint and on the object\'s thread; at quiescence the queue is empty (no '
         'lost wake-up). distinct_nontrivial = distinct context-switch sequences of runs that entered a race window')
 CASES = {'quick': 1200, 'thorough': 100000}
-BUDGET = {'quick': 50, 'thorough': 300}
+BUDGET = {'quick': 150, 'thorough': 300}
 REQUIRE = {'runs_checked': 500, 'runs_with_live_output_on': 100, 'timed_events_expected': 200, 'published_events_expected': 200, 'poster_between_token_put_and_append': 50, 'consumer_between_get_and_popleft': 50, 'events_dispatched': 3000}
 ASSUME = ['queue capacity (500) is not reached', 'runs cut by the C05 step budget are attributed to C05 and excluded here']
 ANNOUNCE_CASES = True
